@@ -104,7 +104,7 @@ func TestChoreo(t *testing.T) {
 	n := envInt("PV_N", 12)
 	rnd := hx.NewRand(seed)
 	sum := hx.NewSummary("choreo", seed)
-	sum.Rule = "one case = one choreographed schedule (GOMAXPROCS=1, no async preemption). kind 0 entry-handoff: a fetcher holds the key; 2-5 operations (Get by new requests, the fetcher's completion Cacheable(ttl)/HitForPass) are queued on the entry lock in a chosen order and their critical sections run in that order, each operation descheduled between its Unlock and its next step (so a waiter is registered but not yet receiving when the completion runs); kind 1 zone-handoff: 2-6 requests for one cold key queued the same way on the shard lock (lookup-or-create), then each calls Get; kind 2 purge-window: a persisted hit; a purge whose store.Delete blocks; a request arrives meanwhile; Delete is released; a further request arrives after the purge returned. Observation = what every Get returned or whether it is still parked, before and after the remaining fetch is completed. non-trivial = every case; distinct by (kind, queue)"
+	sum.Rule = "one case = one choreographed schedule (GOMAXPROCS=1, no async preemption). kind 0 entry-handoff: a fetcher holds the key; 2-5 operations (Get by new requests, the fetcher's completion Cacheable(ttl)/HitForPass) are queued on the entry lock in a chosen order and their critical sections run in that order, each operation descheduled between its Unlock and its next step (so a waiter is registered but not yet receiving when the completion runs); kind 1 zone-handoff: 2-6 requests for one cold key queued the same way on the shard lock (lookup-or-create), then each calls Get; kind 2 purge-window: a persisted hit; a purge whose store.Delete blocks; a request arrives meanwhile; Delete is released; a further request arrives after the purge returned; kind 3 lookup-purge-get: a fetch in flight with one parked request, a third request looks the entry up, the key is purged, and only then does the third request call Get on the entry it holds; then the fetch completes. Observation = what every Get returned or whether it is still parked, before and after the remaining fetch is completed. non-trivial = every case; distinct by (kind, queue)"
 	header := "From Coq Require Import List ZArith.\nImport ListNotations.\nFrom Pike Require Import Model.Sys Corr.SysCorr Corr.ChoreoCorr.\n"
 	w := hx.NewCaseWriter(out, "choreo", header, "list ch_case", "check_cases", 50, sum)
 	distinct := hx.NewDistinct()
@@ -118,13 +118,13 @@ func TestChoreo(t *testing.T) {
 		{{kind: "get"}, {kind: "get"}, {kind: "get"}, {kind: "hfp"}},
 	}
 	for i := 0; i < n; i++ {
-		kind := i % 3
+		kind := i % 4
 		var q []chOp
 		nreq := 0
 		switch kind {
 		case 0:
-			if i/3 < len(queues) {
-				q = queues[i/3]
+			if i/4 < len(queues) {
+				q = queues[i/4]
 			} else {
 				k := 2 + rnd.Intn(4)
 				done := false
@@ -142,9 +142,9 @@ func TestChoreo(t *testing.T) {
 				}
 			}
 		case 1:
-			nreq = 2 + (i/3)%5
+			nreq = 2 + (i/4)%5
 		case 2:
-			nreq = 1 + (i/3)%2
+			nreq = 1 + (i/4)%2
 		}
 		var qs []string
 		for _, o := range q {
@@ -214,6 +214,38 @@ func TestChoreo(t *testing.T) {
 			settle()
 			obs2 = collectGets(results)
 			cache.ResetDispatchers(nil)
+		case 3:
+			// lookup - purge - get: a request that already holds the entry when the key is purged runs Get on it afterwards
+			name := fmt.Sprintf("choreo%d", i)
+			cache.ResetDispatchers([]config.CacheConfig{{Name: name, Size: 64, HitForPass: "300s"}})
+			d := cache.GetDispatcher(name)
+			key := []byte(fmt.Sprintf("GET choreo.example /held/%d", i))
+			hc0 := d.GetHTTPCache(key)
+			if st, _ := hc0.Get(); st != cache.StatusFetching {
+				t.Fatalf("first Get returned %v", st)
+			}
+			results := []chan getResult{make(chan getResult, 1), make(chan getResult, 1)}
+			go func() {
+				s, r := d.GetHTTPCache(key).Get()
+				results[0] <- getResult{s, ridOf(r)}
+			}()
+			settle() // parked behind the fetch
+			held := d.GetHTTPCache(key) // looked up, Get not called yet
+			d.RemoveHTTPCache(key)      // the purge lands in between
+			go func() {
+				s, r := held.Get()
+				results[1] <- getResult{s, ridOf(r)}
+			}()
+			settle()
+			obs1 = collectGets(results)
+			hc0.Cacheable(mkResp(1), 60)
+			settle()
+			if o := collectGets(results); o[1] == "(TUpstream LFetching)" {
+				held.Cacheable(mkResp(2), 60) // it became a second fetcher: let that fetch end too
+				settle()
+			}
+			obs2 = collectGets(results)
+			cache.ResetDispatchers(nil)
 		case 2:
 			name := fmt.Sprintf("choreo%d", i)
 			url := "fake://" + name
@@ -268,7 +300,7 @@ func TestChoreo(t *testing.T) {
 			cache.ResetDispatchers(nil)
 		}
 		term := fmt.Sprintf("{| ch_kind := %d; ch_queue := %s; ch_requests := %d; ch_obs1 := %s; ch_obs2 := %s |}", kind, hx.List(qs), nreq, hx.List(obs1), hx.List(obs2))
-		rep := map[string]interface{}{"kind": []string{"entry-handoff", "zone-handoff", "purge-window"}[kind], "queue": strings.Join(qs, " "), "requests": nreq, "after_queue_drained": obs1, "after_completion": obs2}
+		rep := map[string]interface{}{"kind": []string{"entry-handoff", "zone-handoff", "purge-window", "lookup-purge-get"}[kind], "queue": strings.Join(qs, " "), "requests": nreq, "after_queue_drained": obs1, "after_completion": obs2}
 		w.Add(term, rep)
 		sum.Evaluations++
 		sum.Count(rep["kind"].(string))
